@@ -130,7 +130,12 @@ func runBcSchedule(ops []bcOp, prefix []int) *bcRun {
 				}
 				d.outcome = "returned"
 			case "C":
-				b.Close(errors.New("closed-by-test"))
+				// (the cause is optional here too)
+				if i%2 == 0 {
+					b.Close(nil)
+				} else {
+					b.Close(errors.New("closed-by-test"))
+				}
 				d.outcome = "returned"
 			case "X":
 				sch.Trace("ctx.cancelled", fmt.Sprint(o.Ctx)) // logged first: goroutines woken by the cancellation log concurrently
@@ -189,10 +194,19 @@ func runBcSchedule(ops []bcOp, prefix []int) *bcRun {
 	for _, c := range cancels {
 		c()
 	}
-	func() {
+	lockLeaked := false
+	cl := make(chan struct{})
+	go func() {
+		defer close(cl)
 		defer func() { recover() }()
 		b.Close(errors.New("cleanup"))
 	}()
+	select {
+	case <-cl:
+	case <-time.After(500 * time.Millisecond):
+		// an operation left the broadcaster's lock held (e.g. it panicked inside its critical section)
+		lockLeaked = true
+	}
 	deadline := time.After(2 * time.Second)
 	for finished < len(ops) {
 		select {
@@ -204,6 +218,9 @@ func runBcSchedule(ops []bcOp, prefix []int) *bcRun {
 		}
 	}
 	bcOracle(r)
+	if lockLeaked {
+		r.Problems = append(r.Problems, "after the scenario the broadcaster's lock is still held: a final Close blocks for ever")
+	}
 	return r
 }
 
